@@ -36,6 +36,7 @@ func coordValues() []*big.Int {
 }
 
 func genC05(c *Ctx) {
+	genAggLengths(c) // signatures reach the decoder through aggregation too: wrong lengths that add up
 	bls := crypto.BLSBLS12381
 	nRand, nFlip := 20, 8
 	if c.thorough() {
